@@ -261,7 +261,14 @@ func (c *Ctx) Finish() error {
 		for _, t := range cs.Tags {
 			hist[t]++
 		}
-		b, _ := json.Marshal(map[string]any{"i": i, "input": cs.Input, "obs": cs.Obs, "trivial": cs.Trivial, "tags": cs.Tags})
+		b, err := json.Marshal(map[string]any{"i": i, "input": cs.Input, "obs": cs.Obs, "trivial": cs.Trivial, "tags": cs.Tags})
+		if err != nil {
+			// NaN or Inf among the observed values: keep the line valid JSON, the values as text
+			b, err = json.Marshal(map[string]any{"i": i, "input": jsonSafe(cs.Input), "obs": jsonSafe(cs.Obs), "trivial": cs.Trivial, "tags": cs.Tags})
+			if err != nil {
+				b, _ = json.Marshal(map[string]any{"i": i, "input": fmt.Sprintf("%+v", cs.Input), "obs": fmt.Sprintf("%+v", cs.Obs), "trivial": cs.Trivial, "tags": cs.Tags})
+			}
+		}
 		w.Write(b)
 		w.WriteString("\n")
 	}
@@ -317,4 +324,12 @@ func Guard(f func()) (panicked bool, msg string) {
 	}()
 	f()
 	return false, ""
+}
+
+// jsonSafe returns v unless it cannot be marshalled (NaN, Inf), in which case its printed form.
+func jsonSafe(v any) any {
+	if _, err := json.Marshal(v); err != nil {
+		return fmt.Sprintf("%+v", v)
+	}
+	return v
 }
